@@ -13,6 +13,36 @@ CLAIMED = {
             "length, never panics. Correspondence exhaustive (3x3, 256 bytes, 3x256x81 blobs) so the model is the code on that domain.",
             "model Model/Network.v hand-written; exhaustive correspondence",
             "Coq proof + exhaustive correspondence", "4 C20"),
+    "C01": ("Coq theorems (Props/C01.v), for every byte string and every size_of table: whatever dec_T accepts re-serialises to exactly the "
+            "consumed bytes (s = enc x ++ rest) for Transaction, Block, TransactionPrefix, BlockHeader and every component (TxIn, TxOut, targets, "
+            "hashes, raw extra, VarInt, Signature, RctType, EcdhInfo, RangeSig/BoroSig, Bulletproof(+), CLSAG, MLSAG, RctSigBase, RctSigPrunable, "
+            "Vec<T>/sized vectors for any exact element decoder); consumed = length of the re-serialisation; no two byte strings parse to the "
+            "same value. Correspondence: parse-then-serialise on ~1.5*10^5 inputs per quick run (test-suite literals, model-encoded generated "
+            "transactions of all versions / RingCT types, each mutated at every offset), dumps compared structurally.",
+            "model Model/Codec.v hand-written (mirrors the Rust decoders line by line); tie = correspondence check; oracle serialize(parse(b)) == b[..n] runs on the implementation alone",
+            "Coq proof + model/implementation correspondence", "4 C01"),
+    "C12": ("Coq proof, for every byte string / text and for every hash with 32-byte output and every key test implying length 32 (instances "
+            "Keccak-256 and Ed25519 decompress-recompress proved to qualify): Monero base58 (model of base58-monero 2.1.0) is a bijection between "
+            "byte strings and accepted texts (block digits unique, overflow and illegal lengths refused); Address blob = tag, keys, payment id, "
+            "4-byte checksum; blob/text/hex/consensus forms round-trip; from_bytes accepts exactly canonical blobs of well-formed addresses, "
+            "from_str exactly their canonical texts; trailing, truncated, wrong-length, unknown-tag inputs refused; no parser panics. 29 theorems.",
+            "theorems are about Model/Base58.v and Model/Address.v; tie to src/util/address.rs and base58-monero 2.1.0 is the correspondence check "
+            "(~4*10^4 cases per quick run, all four forms, every single-byte corruption, all tags, all lengths) plus an independent python oracle",
+            "Coq proof + model/implementation correspondence", "4 C12"),
+    "C15": ("Coq theorems (Props/C15.v), for ALL byte strings and ALL amounts: from_str_in returns q iff the text is a well-formed decimal "
+            "(optional '-', digits, optional point, at most `decimals d` decimals, 1..50 bytes) denoting exactly q piconero within range - never "
+            "rounded, truncated, wrapped or mis-scaled, never a panic; FromStr accepts exactly `text SP name` over the 12-entry alias table; "
+            "formatting is the unique canonical fixed-point expansion for every u64/i64 (incl. MIN); parse(format a) = a up to 2^63-1, plain, "
+            "with suffix and through Display. Correspondence: every string over {0,1,9,.,-,x,space} up to length 5 x 5 denominations x both "
+            "types, boundary magnitudes, 48-52-byte paddings, non-ASCII, random; oracle = python Fraction arithmetic.",
+            "model Model/Amount.v works on the UTF-8 bytes of the text; std integer Display / zero padding / splitn are modelled; tie = correspondence check",
+            "Coq proof + model/implementation correspondence", "4 C15"),
+    "C18": ("Coq theorems (Props/C18.v): for ALL u64/i64 operands the five checked operations of Amount and SignedAmount equal exact Z arithmetic "
+            "(truncating division) when representable with non-zero divisor and None otherwise (MIN % -1 = 0, MIN / -1 refuses); operator and "
+            "assigning forms return that result and panic iff the checked form is None; to_signed / to_unsigned / positive_sub characterised "
+            "exactly. Correspondence on ~3*10^5 operand pairs in BOTH release and dev (overflow-checking) profiles; oracle = python big integers.",
+            "model Model/Amount.v hand-written; std checked_*/wrapping_rem/as-cast behaviour modelled; tie = correspondence check in both profiles",
+            "Coq proof + model/implementation correspondence", "4 C18"),
 }
 NOT_YET = {}
 ALL = ["C%02d" % i for i in range(1, 21)]
